@@ -1635,6 +1635,8 @@ def parse_einsum_input(args, shapes=False, tuples=False, constants=None):
         eq, arrays = convert_from_interleaved(args)
     else:
         eq, *arrays = args
+        # whitespace is not significant (and not an index)
+        eq = eq.replace(" ", "")
 
     # prepare shapes for caching
     if shapes:
